@@ -209,6 +209,28 @@ def reconnect_oracle(ix: Index, scn: dict) -> list[Violation]:
             tm = _timer_due(h, attempts, later[0], t)
             if not tm:
                 out.append(Violation("record-nonmatching-triggered", "", f"non-matching mDNS record at {t:.6f} was followed by an attempt in the same instant"))
+    # --- listening (on a live instance) while waiting after a failure --------------------------
+    if name:
+        for seq, t, d in records:
+            if in_confusion(seq) or d["n_listeners"] > 0:
+                continue
+            if not any((r["type"] == "PTR" and r.get("alias") == f"{name}._esphomelib._tcp.local.") or (r["type"] == "A" and r.get("name") == f"{name}.local.") for r in d["records"]):
+                continue
+            if _stopped_at(ctl, seq) or any(a <= seq <= b for a, b, k, tt in ctl) or _callback_running(h, seq):
+                continue
+            if any(a["seq_new"] < seq and (a["seq_closed"] is None or a["seq_closed"] > seq) for a in attempts):
+                continue
+            prev = [ev for ev in h if ev[0] < seq and ev[3] in ("rl_on_error_done", "rl_on_disconnect_done", "rl_on_connect")]
+            if not prev or prev[-1][3] != "rl_on_error_done" or prev[-1][1] >= ix.seq_turn[seq] - 1:
+                continue
+            if any(a_ <= seq and b_ >= prev[-1][0] for a_, b_, _k, _t in ctl):
+                continue  # a start()/stop() call since that failure: not a plain retry wait
+            # waiting for a retry after a handled failure, started, nothing running: the manager has to be registered
+            later = [a for a in attempts if a["seq_new"] > seq]
+            if later and abs(later[0]["t_new"] - prev[-1][2]) < 1.0 - 1e-9:
+                continue  # an immediate retry (no wait, no listener needed) was already due
+            out.append(Violation("not-listening-while-waiting", "", f"matching mDNS record at t={t:.4f} while the manager waits for its retry after the failure handled at {prev[-1][2]:.4f}, but it is not registered as listener on any open zeroconf instance"))
+            break
     # --- never listening while a session is established -------------------------------------
     for seq, t, d in records:
         if d["n_listeners"] <= 0 or in_confusion(seq):
@@ -305,7 +327,7 @@ def gen_c18(rng: random.Random) -> dict:
     t = 0.0
     while t < T:
         d = pick(rng, [1.0, 3.0, 7.0, 20.0, 65.0])
-        kind = pick(rng, ["ok", "ok", "refused", "unreachable", "hang", "badpw", "badname", "needs_enc", "hello_silence", "slow", "netunreach_sync"])
+        kind = pick(rng, ["ok", "ok", "refused", "unreachable", "hang", "badpw", "badname", "needs_enc", "hello_silence", "slow", "netunreach_sync", "hs_reject"])
         t1 = min(T, t + d)
         if kind in ("refused", "unreachable", "hang", "netunreach_sync"):
             connect_at.append({"from": t, "to": t1, "outcome": kind, "latency": pick(rng, [0.0, 0.01, 0.5])})
@@ -315,6 +337,10 @@ def gen_c18(rng: random.Random) -> dict:
             persona_at.append({"from": t, "to": t1, "cfg": {"hello": {"name": "other"}, "noise_name": "other"}})
         elif kind == "needs_enc" and psk is None:
             persona_at.append({"from": t, "to": t1, "cfg": {"transport": "noise", "psk": base64.b64encode(b"k" * 32).decode(), "on_wire_error": "reply_noise_error"}})
+        elif kind == "hs_reject" and psk is not None:
+            # a noise handshake failure that is no key problem (reject text other than the MAC failure, odd server hello):
+            # an ordinary failure for the back-off, not an authentication / encryption error
+            persona_at.append({"from": t, "to": t1, "cfg": pick(rng, [{"noise_reject": pick(rng, ["Bad handshake packet len", "Handshake error"])}, {"noise_empty_hello": True}, {"noise_selector": 2}])})
         elif kind == "hello_silence":
             persona_at.append({"from": t, "to": t1, "cfg": {"replies": {"HelloRequest": ["silent"]}}})
         elif kind == "slow":
